@@ -5,6 +5,10 @@
      N:<as>:<addr>:<as2>:<addr2>   get_cache_buf whose callback calls get_cache_buf(as2, addr2)
    output per op: "<out>[<idx>:<as>:<addr>:<size>:<ptrnull>,...]" (slots in ring order from
    mru following next), then "L<gets>:<puts>:<outstanding>" after cleanup_cache.
+   <out>: G0=<buffer start>:<first byte of the buffer> | G<status> | R0=<value> | R<status> |
+          B | N<status>/<nested status or ->
+   engines "rcache-w16", "rcache-w31", "rcache-w32", "rcache-w63": the same code with the
+   in-buffer offset computed in that many bits (ReadCache.run_op_w); "rcache" is the code.
    engine "rcache-spec": "<case> | <implementation output>" -> "ok" or the reason: every
    answer is judged by the cache-less computation [direct], the printed slots by the
    invariant, the page counts by the balance. *)
@@ -40,20 +44,18 @@ let le_hex (l : coq_N list) : string =
 
 let status_of_gres = function GOk _ -> 0 | GFail -> nodata | GRecursion -> nodata
 
-let show_get (c : cache) (addr : coq_N) (r : gres) : string =
+let show_get (c : cache) (r : gres) : string =
   match r with
   | GOk i ->
       let s = get_slot c i in
       (match s.ptr with
-       | Some d ->
-           let off = int_of_n addr - int_of_n s.addr in     (* same region: small offset *)
-           Printf.sprintf "0=%x" (int_of_n (Stdlib.List.nth d off))
+       | Some d -> Printf.sprintf "0=%s:%x" (hex_of_n s.addr) (int_of_n (Stdlib.List.hd d))
        | None -> "0=NULL")
   | _ -> string_of_int (status_of_gres r)
 
 let show_out (o : op) (c : cache) (ev : event list) (out : outcome) : string =
   match o, out with
-  | OGet (_, a, []), OutG r -> "G" ^ show_get c a r
+  | OGet (_, _, []), OutG r -> "G" ^ show_get c r
   | OGet (_, a, _), OutG r ->
       let nested = Stdlib.List.fold_left (fun acc e ->
         match e with RetG r -> string_of_int (status_of_gres r) | _ -> acc) "-" ev in
@@ -71,17 +73,20 @@ let count_events (ev : event list) : int * int =
     | Put (_, Some _) -> (g, p + 1)      (* a Put of a buffer with ptr = NULL is def_put_page_cb *)
     | _ -> (g, p)) (0, 0) ev
 
-let run_case (line : string) : string =
+let run_with (step : cache -> op -> (cache * event list) * outcome) (line : string) : string =
   let ops = Stdlib.List.map parse_op (words line) in
   let c = ref init_cache and gets = ref 0 and puts = ref 0 in
   let toks = Stdlib.List.map (fun o ->
-    let ((c', ev), out) = run_op synth_get_page !c o in
+    let ((c', ev), out) = step !c o in
     let (g, p) = count_events ev in
     gets := !gets + g; puts := !puts + p; c := c';
     show_out o c' ev out ^ show_slots c') ops in
   let (_, p) = count_events (cleanup_events !c) in
   puts := !puts + p;
   String.concat " " (toks @ [Printf.sprintf "L%x:%x:%x" !gets !puts (!gets - !puts)])
+
+let run_case = run_with (run_op synth_get_page)
+let run_case_w (k : int) = run_with (run_op_w synth_get_page (n_of_int k))
 
 (* ---- spec mode ---- *)
 (* the callback is a pure function: remember its answers (slot addresses repeat a lot) *)
@@ -92,28 +97,61 @@ let region (a_as : coq_N) (a : coq_N) =
   | None -> let r = synth_get_page a_as a in
             if Hashtbl.length region_memo < 100000 then Hashtbl.add region_memo (a_as, a) r; r
 
-let judge_slots (s : string) : string option =
+type pslot = { idx : int; sas : coq_N; sad : coq_N; ssz : coq_N; pnull : bool }
+
+let parse_slots (s : string) : pslot list =
   (* "[i:as:addr:size:ptrnull,...]" *)
   let body = String.sub s 1 (String.length s - 2) in
-  let slots = Stdlib.List.map (fun t -> match split_on ':' t with
-    | [i; a; b; sz; pn] -> (int_of_string i, n_of_hex a, n_of_hex b, n_of_hex sz, pn = "1")
-    | _ -> failwith "bad slot") (split_on ',' body) in
-  let idx = Stdlib.List.sort compare (Stdlib.List.map (fun (i, _, _, _, _) -> i) slots) in
+  Stdlib.List.map (fun t -> match split_on ':' t with
+    | [i; a; b; sz; pn] -> { idx = int_of_string i; sas = n_of_hex a; sad = n_of_hex b;
+                             ssz = n_of_hex sz; pnull = (pn = "1") }
+    | _ -> failwith "bad slot") (split_on ',' body)
+
+(* the slot is responsible for address a of space a_as (unbounded arithmetic) *)
+let owns (p : pslot) (a_as : coq_N) (a : coq_N) : bool =
+  p.sas = a_as && BinNat.N.leb p.sad a && BinNat.N.ltb a (BinNat.N.add p.sad p.ssz)
+
+let judge_slots (slots : pslot list) : string option =
+  let idx = Stdlib.List.sort compare (Stdlib.List.map (fun p -> p.idx) slots) in
   if idx <> [0; 1; 2; 3] then Some "the MRU ring is not a permutation of the four slots" else
-  Stdlib.List.fold_left (fun acc (i, a, b, sz, pn) ->
+  Stdlib.List.fold_left (fun acc p ->
     match acc with Some _ -> acc | None ->
-    if sz = N0 then None
-    else if pn then Some (Printf.sprintf "slot %d has size != 0 and ptr = NULL outside a callback" i)
-    else match region a b with
-      | Some ((b', sz'), _) when b' = b && sz' = sz -> None
-      | _ -> Some (Printf.sprintf "slot %d does not hold the region of its own address" i)) None slots
+    if p.ssz = N0 then None
+    else if p.pnull then Some (Printf.sprintf "slot %d has size != 0 and ptr = NULL outside a callback" p.idx)
+    else match region p.sas p.sad with
+      | Some ((b', sz'), _) when b' = p.sad && sz' = p.ssz -> None
+      | _ -> Some (Printf.sprintf "slot %d does not hold the region of its own address" p.idx)) None slots
+
+let order (l : pslot list) = Stdlib.List.map (fun p -> p.idx) l
+
+(* the MRU order after an operation, judged from the order before it *)
+let judge_order (o : op) (ok : bool) (prev : pslot list) (cur : pslot list) : string option =
+  match o with
+  | OBury (a_as, a) ->
+      let byidx = Stdlib.List.sort (fun p q -> compare p.idx q.idx) prev in
+      let want = match Stdlib.List.filter (fun p -> owns p a_as a) byidx with
+        | p :: _ -> Stdlib.List.filter (fun i -> i <> p.idx) (order prev) @ [p.idx]
+        | [] -> order prev in
+      if Stdlib.List.sort compare prev <> Stdlib.List.sort compare cur then Some "bury changed a slot's contents"
+      else if order cur <> want then
+        Some ("bury must move exactly the slot that holds the address to the end of the MRU order (expected " ^
+              String.concat "," (Stdlib.List.map string_of_int want) ^ ")")
+      else None
+  | OGet (a_as, a, []) | ORead (a_as, a, _, []) ->
+      if ok then (match cur with
+        | p :: _ when owns p a_as a -> None
+        | _ -> Some "the most recently used slot does not hold the requested address")
+      else if order cur <> order prev then Some "a failed call changed the MRU order" else None
+  | _ -> None
+
+let initial_slots = parse_slots "[0:0:0:0:1,1:0:0:0:1,2:0:0:0:1,3:0:0:0:1]"
 
 let spec_case (line : string) : string =
   match Stdlib.List.map String.trim (split_on '|' line) with
   | [case; impl] ->
       let ops = words case and outs = words impl in
       if Stdlib.List.length outs <> Stdlib.List.length ops + 1 then "wrong number of outputs" else
-      let rec go ops outs =
+      let rec go prev ops outs =
         match ops, outs with
         | [], [l] ->
             (match split_on ':' (String.sub l 1 (String.length l - 1)) with
@@ -123,12 +161,13 @@ let spec_case (line : string) : string =
         | o :: ops', t :: outs' ->
             let k = String.index t '[' in
             let ans = String.sub t 0 k and sl = String.sub t k (String.length t - k) in
-            let want = match parse_op o with
+            let pop = parse_op o in
+            let want = match pop with
               | OGet (a_as, a, []) ->
                   (match region a_as a with
                    | None -> "G" ^ string_of_int nodata
                    | Some ((b, _), d) ->
-                       Printf.sprintf "G0=%x" (int_of_n (Stdlib.List.nth d (int_of_n a - int_of_n b))))
+                       Printf.sprintf "G0=%s:%x" (hex_of_n b) (int_of_n (Stdlib.List.hd d)))
               | OGet (a_as, a, _) ->
                   (* only the outer status is a pure function of the address *)
                   (match region a_as a with None -> "N" ^ string_of_int nodata | Some _ -> "N0")
@@ -141,9 +180,18 @@ let spec_case (line : string) : string =
             let ans' = if String.length ans > 0 && ans.[0] = 'N' then
                          Stdlib.List.hd (split_on '/' ans) else ans in
             if ans' <> want then Printf.sprintf "%s answered %s, the cache-less answer is %s" o ans want
-            else (match judge_slots sl with Some why -> o ^ ": " ^ why | None -> go ops' outs')
+            else
+              let cur = parse_slots sl in
+              let ok = String.length ans > 1 && ans.[1] = '0' in
+              (match judge_slots cur with
+               | Some why -> o ^ ": " ^ why
+               | None -> (match judge_order pop ok prev cur with
+                          | Some why -> o ^ ": " ^ why
+                          | None -> go cur ops' outs'))
         | _ -> "wrong number of outputs" in
-      go ops outs
+      go initial_slots ops outs
   | _ -> failwith "bad spec line"
 
-let engines = [ "rcache", run_case; "rcache-spec", spec_case ]
+let engines = [ "rcache", run_case; "rcache-spec", spec_case;
+                "rcache-w16", run_case_w 16; "rcache-w31", run_case_w 31;
+                "rcache-w32", run_case_w 32; "rcache-w63", run_case_w 63 ]
